@@ -49,6 +49,23 @@ void gate_case(Ctx &c, int chunk) {
             if (opened) { c.check(echoed.size() == 3 && V3(echoed[0], echoed[1], echoed[2]) == v, "C10/version-echo/" + cls, [&] { return "file.version() = " + (echoed.size() == 3 ? vs(V3(echoed[0], echoed[1], echoed[2])) : std::string("?")) + " for stored " + vs(v); }); c.check(content, "C10/content-lost/" + cls, "block missing after open"); }
             c.count("opens");
         }
+        // the gate decides on the file and the requested mode, not on what else this process holds open: the same opens while
+        // another (forced) session on the file is alive. (HDF5 itself refuses a read-write open beside a read-only holder, so only
+        // the combinations HDF5 permits are judged.)
+        for (int holder = 0; holder < 2; holder++) for (int mode = 0; mode < 2; mode++) for (int force = 0; force < 2; force++) {
+            if (holder == 0 && mode == 1) continue;
+            if (!stamp_version(path, v)) { c.check(false, "C10/harness/stamp-failed", "could not rewrite the version attribute"); continue; }
+            FileMode hm = holder == 0 ? FileMode::ReadOnly : FileMode::ReadWrite, fm = mode == 0 ? FileMode::ReadOnly : FileMode::ReadWrite;
+            bool expect = force ? true : (mode == 0 ? can_read : can_write);
+            std::string cls = std::string(mode == 0 ? "ReadOnly" : "ReadWrite") + (force ? "+Force" : "") + (holder == 0 ? "/beside-ReadOnly-holder" : "/beside-ReadWrite-holder");
+            c.op("open " + cls + " | file version " + vs(v) + " library " + vs(lib));
+            File h; try { h = File::open(path, hm, "hdf5", Compression::Auto, OpenFlags::Force); } catch (std::exception &e) { c.check(false, "C10/gate/holder-refused", std::string("forced open refused: ") + e.what()); continue; }
+            bool opened = false; std::string exc;
+            try { File f = File::open(path, fm, "hdf5", Compression::Auto, force ? OpenFlags::Force : OpenFlags::None); opened = f.isOpen(); f.close(); } catch (std::exception &e) { exc = e.what(); }
+            h.close();
+            c.check(opened == expect, "C10/gate/" + cls + (expect ? "/refused" : "/accepted"), [&] { return "file version " + vs(v) + ", library " + vs(lib) + ", " + cls + ": " + (opened ? "opened" : "refused (" + exc.substr(0, 100) + ")") + ", expected " + (expect ? "open" : "refusal"); });
+            c.count("opens"); c.count("opens_beside_holder");
+        }
         // Overwrite always yields a fresh file at the library version
         for (int force = 0; force < 2; force++) {
             if (i % 5 != (size_t)force) continue;   // (destroys the content: done for a fifth of the triples each)
